@@ -40,7 +40,7 @@ TIERS = {
     "thorough": dict(nshards=64, sweep_hi=0x110000, sweep_sample=0, random_lists=6000, big_values=12),
 }
 EXCL = {'"', "\\", "\r", "\n"}
-WEIGHTED = [";", "=", "*", "'", "%", " ", "\x00", "\x85", " ", "́", "\U0001f40d", "\t", "&", "+", "#", "?", "/", ":", ",", "é", "ß", "\x7f", "\x1f", "%2", "%41", "a", "b", "Z", "0", "-", "_", "."]
+WEIGHTED = ["; filename=x.txt", ";name=other", "; name=", "; charset=utf-8", "a;b=c", "; filename*=UTF-8''x", ";", "=", "*", "'", "%", " ", "\x00", "\x85", " ", "́", "\U0001f40d", "\t", "&", "+", "#", "?", "/", ":", ",", "é", "ß", "\x7f", "\x1f", "%2", "%41", "a", "b", "Z", "0", "-", "_", "."]
 
 
 def shards(tier, seed):
@@ -381,6 +381,25 @@ def run(shard, rec, rng):
         rec.observe("big_value_cases")
         check_parts(W, rec, parts, rand_boundary(rng), paths=("encode_multipart", "builder_multipart"))
         check_urlencoded(W, rec, [("big", big[:40000]), ("k", "v")])
+    # ---- a part's header block lying across the parser's 64 KiB read boundary, followed by a part with a shorter header block
+    for i in range(cfg.get("big_values", 2)):
+        boundary = "STRADDLE" + rand_boundary(rng)[:5]
+        long_name = "n" * rng.choice([120, 300]) + rng.choice(["", "é"])
+
+        def plist(pad):
+            return [("field", "big", None, None, "x" * pad), ("file", "up", long_name + ".bin", "application/octet-stream", b"DATA\r\n--"),
+                    ("field", "z", None, None, "v"), ("file", "u2", "s.txt", "text/plain", b"second")]
+
+        md0 = DS.MultiDict()
+        for kind, name, filename, ctype, value in plist(1000):
+            md0.add(name, DS.FileStorage(io.BytesIO(value), filename=filename, name=name, content_type=ctype) if kind == "file" else value)
+        _, data0 = T.encode_multipart(md0, boundary=boundary)
+        off = data0.index(b'name="up"')  # inside the second part's header block
+        for k64 in (1, 2):
+            pad = 1000 + (k64 * 65536 - off) + rng.randrange(-8, 40)
+            if pad > 0:
+                rec.observe("header_straddles_64k_cases")
+                check_parts(W, rec, plist(pad), boundary, paths=("encode_multipart",))
     # ---- random part lists
     for i in range(cfg["random_lists"]):
         boundary = rand_boundary(rng)
